@@ -11,6 +11,7 @@ pub mod c07;
 pub mod c10;
 pub mod c11;
 pub mod c12;
+pub mod c13;
 pub mod c15;
 pub mod c20;
 
@@ -26,7 +27,7 @@ pub struct Prop {
 }
 
 pub fn all() -> Vec<Prop> {
-    vec![c01::PROP, c02::PROP, c05::PROP, c06::PROP, c07::PROP, c10::PROP, c11::PROP, c12::PROP, c15::PROP, c20::PROP]
+    vec![c01::PROP, c02::PROP, c05::PROP, c06::PROP, c07::PROP, c10::PROP, c11::PROP, c12::PROP, c13::PROP, c15::PROP, c20::PROP]
 }
 
 pub fn find(id: &str) -> Option<Prop> {
